@@ -91,9 +91,26 @@ FMerge(r) ==
                \cup F("MergedTable", (~exp.err /\ r.out.raised = "none") =>
                                         Len(r.out.table) = r.in.nj /\ \A j \in D : r.out.table[j] = exp.table[j])
 
+\* a COMPLETE job set of one split (piece t of r.in.split at position t of r.in.paths, merged in r.in.order), the pieces
+\* built through different code paths: the pieces partition the jobs whatever the path (OutcomeLaw for each piece), so
+\* every piece holds F exactly on its own jobs, the merge succeeds, and the merged cache is the single-process cache
+FJobSet(r) ==
+  LET nj == r.in.nj sp == r.in.split
+      wf == sp \in 1..64 /\ nj \in 1..4096 /\ Len(r.in.order) = sp /\ Len(r.in.pieces) = sp /\ Len(r.in.F) = nj
+            /\ {r.in.order[k] : k \in 1..sp} = 0..(sp - 1) /\ \A k \in 1..sp : Len(r.in.pieces[k]) = nj
+  IN  IF ~wf THEN {"BadJobSet"}
+      ELSE LET conf(t) == [nw |-> 1, nj |-> nj, cap |-> 1, split |-> sp, this |-> t, fail |-> {}, die |-> FALSE] IN
+           F("PiecePartition", \A k \in 1..sp : TableOK(conf(r.in.order[k]), r.in.pieces[k], r.in.F))
+           \cup F("CompleteSetMerges", r.out.raised = "none")
+           \cup F("MergedIsSingleProcessCache", r.out.raised = "none" => r.out.table = r.in.F)
+           \cup F("SpecMergeOfObserved", LET exp == Merge(r.in.pieces, 1..nj, NoneTok) IN
+                                            (exp.err <=> r.out.raised # "none") /\ (~exp.err /\ r.out.raised = "none" =>
+                                               \A j \in 1..nj : r.out.table[j] = exp.table[j]))
+
 Failed(r) == CASE r.op = "schedule" -> FSchedule(r)
                [] r.op = "mp_cache" -> FMpCache(r)
                [] r.op = "merge"    -> FMerge(r)
+               [] r.op = "jobset"   -> FJobSet(r)
                [] OTHER -> {"UnknownOp"}
 
 Init == i = 0
